@@ -154,6 +154,10 @@ func (d *detAnalyzer) onlyOrderFreeArgs(n ast.Node, obj types.Object) (bool, str
 					continue
 				}
 				f, _ := typeutil.Callee(d.info, m).(*types.Func)
+				if d.symmetricLibCallY2(f, m, k) {
+					allowed[id] = true // a library function of the multiset of the elements (ext_y2.go)
+					continue
+				}
 				fd, p := d.declOf(f)
 				if fd == nil || m.Ellipsis.IsValid() {
 					okAll, why = false, "the slice is passed on or inspected"
